@@ -206,3 +206,28 @@ def _(self, value: Int, minimum: Int, maximum: Int, number_of_bits: Nat):
                     and self.value % 256 == value - minimum))
     ensures(implies(256 < maximum - minimum + 1 and maximum - minimum + 1 <= 65536,
                     (self.chunks_number_of_bits + self.number_of_bits) % 8 == 0 and self.value % 65536 == value - minimum))
+
+
+@contract("Encoder.append_unconstrained_whole_number", props=["C05", "C01"])
+def _(self, value: Int):
+    # X.691 11.8: length determinant + minimal two's complement octets (bit-exactness of the octets is not stated here;
+    # only that whole octets are appended after a one-octet length)
+    requires(self.number_of_bits <= 4000)
+    requires(-pow2(1000) < value and value < pow2(1000))
+    use(blen_upper(abs_(value)))
+    use(blen_le(abs_(value), 1000))
+    use(pow2_mono(blen(abs_(value)), 8 * ((blen(abs_(value)) + 7) // 8)))
+    use(pow2_8((blen(abs_(value)) + 7) // 8 + 1))
+    use(pow2_add(8 * ((blen(abs_(value)) + 7) // 8) - 1, 1))
+    assigns(self)
+    ensures(self.number_of_bits >= old(self.number_of_bits) + 16 and (self.number_of_bits - old(self.number_of_bits)) % 8 == 0)
+    ensures(self.chunks_number_of_bits == old(self.chunks_number_of_bits))
+
+
+@contract("Decoder.read_unconstrained_whole_number", props=["C05", "C16", "C08"])
+def _(self) -> Int:
+    raises(OutOfDataError)
+    raises(DecodeError)
+    raises(ValueError)
+    assigns(self)
+    ensures(self.number_of_bits < old(self.number_of_bits) and self.value == old(self.value))
